@@ -185,7 +185,11 @@ class IkeSaController:
                         result.append(ikesa.to_dict())
                     conn.sendall(json.dumps(result).encode())
                     conn.close()
+            except Exception as ex:
+                self._log_loop_error(ex)
 
+            # the timers are checked in every iteration: an event that could not be processed must not postpone them
+            try:
                 # check retransmissions (on a copy of the list, as IKE_SAs may be removed while iterating)
                 for ikesa in list(self.ike_sas):
                     request_data = ikesa.check_retransmission_timer()
@@ -211,13 +215,18 @@ class IkeSaController:
                         dst_addr = (str(ikesa.peer_addr), 500)
                         udp_sockets[ikesa.my_addr].sendto(request_data, dst_addr)
 
-            except socket.gaierror as ex:
-                logging.error(f'Problem sending message: {ex}')
-            except KeyError as ex:
-                logging.error(f'Could not find socket with the appropriate source address: {str(ex)}')
             except Exception as ex:
-                # a malformed datagram, an unknown peer, a failed send... must not stop the daemon
-                logging.error(f'Error while processing an event. Omitting it: {ex!r}')
+                self._log_loop_error(ex)
+
+    @staticmethod
+    def _log_loop_error(ex):
+        if isinstance(ex, socket.gaierror):
+            logging.error(f'Problem sending message: {ex}')
+        elif isinstance(ex, KeyError):
+            logging.error(f'Could not find socket with the appropriate source address: {str(ex)}')
+        else:
+            # a malformed datagram, an unknown peer, a failed send... must not stop the daemon
+            logging.error(f'Error while processing an event. Omitting it: {ex!r}')
 
     def close(self):
         xfrm.Xfrm.flush_policies()
